@@ -140,6 +140,7 @@ type Outcome struct {
 	Writes     int
 	BaseRuns   int // how often the innermost handler body ran
 
+	Fired     bool // the fault plan of this request raised its panic
 	Panicked  bool
 	PanicVal  any
 	PanicKind string // injected error runtime other
@@ -241,12 +242,15 @@ func (h *H) exec(w http.ResponseWriter, r *http.Request, o *Outcome) {
 		label = h.MW
 		o.Trace = append(o.Trace, h.MW)
 	}
-	if o.PanicAt != "" && (o.PanicAt == label || o.PanicAt == h.ID) && !o.PanicAfter {
+	hit := o.PanicAt != "" && (o.PanicAt == label || o.PanicAt == h.ID || (o.PanicAt == "base" && h.Kind != "mw"))
+	if hit && !o.PanicAfter {
+		o.Fired = true
 		panic(o.PanicWith)
 	}
 	if h.Next != nil || h.Kind == "mw" {
 		h.Next.exec(w, r, o)
-		if o.PanicAt != "" && (o.PanicAt == label || o.PanicAt == h.ID) && o.PanicAfter {
+		if hit && o.PanicAfter {
+			o.Fired = true
 			panic(o.PanicWith)
 		}
 		return
@@ -282,7 +286,8 @@ func (h *H) exec(w http.ResponseWriter, r *http.Request, o *Outcome) {
 			}
 		}
 	}
-	if o.PanicAt != "" && o.PanicAt == h.ID && o.PanicAfter {
+	if hit && o.PanicAfter {
+		o.Fired = true
 		panic(o.PanicWith)
 	}
 }
